@@ -18,7 +18,8 @@ RULE = ("Positive cases: a reference model (UVL profile: typed features, feature
         "surface choices differing from the writer's canonical form, or any negative document; distinct = distinct document text.")
 ASSUMPTIONS = ["the meaning of a document is my transcription of the UVL definition (vf/emit_uvl.py + the group rules in DESIGN C04)",
                "validity filter = raw uvlparser with strict listeners on lexer and parser (dependency); its quirks are avoided by the emitter",
-               "constraints are compared positionally under truth-table equivalence with structural comparison atoms"]
+               "constraints are compared positionally under truth-table equivalence with structural comparison atoms",
+               "a mutated/fuzzed document that stays grammatical but has no `features` section denotes no root and is not judged (counted as class mutation-no-features-section)"]
 
 C04_LOGICAL = ("NOT", "AND", "OR", "IMPLIES", "EQUIVALENCE")
 ATTR_POOL = ["cost", "w", "a b", "1x", "é"]
@@ -290,6 +291,10 @@ def check(case):
         got = lib(lambda: UVLReader(p).transform())
     if case["expect"] == "error-if-invalid":
         if not (lex_err or par_err):
+            if uvl_raw.strict_errors.no_features:
+                # grammatically valid but without a `features` section (e.g. swallowed by a block comment): the
+                # document denotes no root, hence no model of this metamodel; nothing is claimed about it
+                return out
             # still valid (its meaning is unknown): the reader must not crash with a non-library error while
             # building the model from a syntactically valid document
             if isinstance(got, Raised) and got.label.split("@")[0] not in ("FlamaException", "ParsingException"):
@@ -338,6 +343,8 @@ def check(case):
 def _status(case):
     lex_err, par_err = uvl_raw.strict_errors(case["text"])
     if case["expect"] == "error-if-invalid":
+        if not (lex_err or par_err) and uvl_raw.strict_errors.no_features:
+            return "mutation-no-features-section(not judged)"
         return "negative-kept" if (lex_err or par_err) else "mutation-still-valid"
     if case["expect"] == "error":
         relevant = lex_err if case["edit"] == "illegal-char" else par_err
